@@ -30,7 +30,7 @@ func TestC12(t *testing.T) {
 			if tier == "thorough" {
 				return 12000
 			}
-			return 320
+			return 960
 		},
 		MinEvals: 50,
 		Run:      runC12,
